@@ -78,6 +78,14 @@ type Action struct {
 	// wait-loop check interval) that elapses by itself; the next action must then be Stop or
 	// Elapse of the same queue (RunScenario clears the flag otherwise)
 	Short bool `json:"short,omitempty"`
+	// FinishWait only: the long delay is waited for with a wait-loop check interval of 300 ms, so that
+	// the harness can place a request between two looks of the worker (see Cancel)
+	Slow bool `json:"slow,omitempty"`
+	// Stop only: queue Q waits in a Slow back-off delay; CancelTaskDelay() is called on it between two
+	// looks of its worker and Shutdown() is requested at once - the worker finds the stop request and
+	// the unconsumed cancellation together.  To the model this is a plain Stop: a cancellation
+	// the worker has not acted upon when the stop request arrives starts nothing
+	Cancel bool `json:"cancel,omitempty"`
 	// Idle only: the operator is left alone for Ms milliseconds (real time: workers poll their
 	// empty queues, wait in handlers and delays).  Not an action of the model: rendered as a tick
 	// of the crontab IdleCron, which no binding uses (a stutter step, C17_time_is_stutter)
@@ -503,6 +511,7 @@ type Sim struct {
 
 type delayInfo struct {
 	short bool
+	slow  bool
 	since time.Time
 }
 
@@ -929,6 +938,11 @@ func (s *Sim) Do(a Action) StepObs {
 							s.delayed[qn] = &delayInfo{short: true, since: time.Now()}
 							qq.WaitLoopCheckInterval = shortInterval
 							return shortDelay
+						case 3:
+							delete(s.waitNext, qn)
+							s.delayed[qn] = &delayInfo{slow: true, since: time.Now()}
+							qq.WaitLoopCheckInterval = shortInterval
+							return time.Hour
 						}
 						return 0
 					}
@@ -982,6 +996,8 @@ func (s *Sim) Do(a Action) StepObs {
 				s.waitNext[a.Q] = 1
 				if a.Short {
 					s.waitNext[a.Q] = 2
+				} else if a.Slow {
+					s.waitNext[a.Q] = 3
 				}
 				s.boMu.Unlock()
 			}
@@ -1005,7 +1021,36 @@ func (s *Sim) Do(a Action) StepObs {
 		}
 	case "Stop":
 		if !s.stopped { // also before Boot: Shutdown() racing Start()
+			var slowD *delayInfo
+			if a.Cancel && s.booted {
+				s.boMu.Lock()
+				if d := s.delayed[a.Q]; d != nil && d.slow {
+					slowD = d
+				}
+				s.boMu.Unlock()
+			}
+			var period time.Duration
+			if slowD != nil {
+				// the worker looks at since + k*300 ms (a little later): go to 60..120 ms after a look
+				for {
+					ph := time.Since(slowD.since) % shortInterval
+					if ph >= 60*time.Millisecond && ph <= 120*time.Millisecond {
+						break
+					}
+					time.Sleep(5 * time.Millisecond)
+				}
+				period = time.Since(slowD.since) / shortInterval
+				if q := s.Op.TaskQueues.GetByName(QueueName(a.Q)); q != nil {
+					q.CancelTaskDelay()
+				}
+			}
 			s.Op.Shutdown()
+			if slowD != nil {
+				el := time.Since(slowD.since)
+				if el/shortInterval != period || el%shortInterval > 250*time.Millisecond {
+					s.Timing = "Shutdown returned too late to be sure it landed before the worker's next look at its cancelled delay"
+				}
+			}
 			s.stopped = true
 			s.boMu.Lock()
 			for _, d := range s.delayed {
